@@ -13,6 +13,8 @@
                                                critical section: ok | conflict | failBefore | failAfter | ctx
      Lookup      {c, k, p, res}                an IdempotencyStore.LookupSend and its answer
      EffStart / EffEnd {c, mid}                the post-commit effect of a stored message
+     Cancel      {i}                           the submitter cancelled item i's context (recorded before
+                                               the cancellation takes effect)
      Result      {i, res}                      a caller read item i's slot of its batch's results
      StopCall    {s, dl}  /  StopReturn {s, res, undone}
      End         {late, stuck}                 all callers and all Stops have returned
@@ -72,7 +74,7 @@ DoSubmit(e) ==
   LET n == Len(e.its) IN
   /\ IF e.res = "ok"
        THEN /\ items' = items \o [j \in 1..n |-> [c |-> e.c, k |-> e.its[j].k, p |-> e.its[j].p, b |-> nbat + 1,
-                                                  orig |-> KeyPos(e.c, e.its[j].k)]]
+                                                  orig |-> KeyPos(e.c, e.its[j].k), x |-> FALSE]]
             /\ res' = res \o [j \in 1..n |-> RNone]
             /\ nbat' = nbat + 1
             /\ wf' = (wf /\ e.first = Len(items) + 1 /\ e.c \in Chans)
@@ -149,14 +151,21 @@ DoResult(e) ==
       /\ bad' = First(<<
            \* exactly one result per item
            <<"C29_SecondResultForItem", res[i].t = "none">>,
-           \* C41: an admitted item is never cancelled / turned away by a stop
-           <<"C41_AdmittedItemCancelledOrTurnedAway", r.t \notin {"canceled", "notReady", "backpressured"}>>,
+           \* C41: an admitted item is never cancelled / turned away by a stop ("canceled" is the
+           \* answer to an item only when its own submitter gave up: CancelItem)
+           <<"C41_AdmittedItemCancelledOrTurnedAway", r.t \notin {"notReady", "backpressured"} /\ (r.t = "canceled" => GaveUpFor(i))>>,
            \* C41: ... nor discarded with a backlog error no limit explains
            <<"C41_AdmittedItemDiscardedAsBusyWithoutLimit", r.t = "busy" => cfg.hw # Unbounded>>,
-           <<"C29_ItemWithoutAlignedResult", r.t \in {"ok", "fail", "busy"}>> >>)
-      /\ res' = IF r.t \in {"ok", "fail", "busy"} /\ res[i].t = "none" THEN [res EXCEPT ![i] = r] ELSE res
+           <<"C29_ItemWithoutAlignedResult", r.t \in {"ok", "fail", "busy", "canceled"}>> >>)
+      /\ res' = IF r.t \in {"ok", "fail", "busy", "canceled"} /\ res[i].t = "none" THEN [res EXCEPT ![i] = r] ELSE res
       /\ UNCHANGED <<cfg, items, nbat, log, effdone, stops, stopping, open, disp, fresh, effOpen, stopRet>>
       /\ KeepIdle
+
+DoCancel(e) ==
+  /\ wf' = (wf /\ e.i \in 1..Len(items))
+  /\ items' = IF e.i \in 1..Len(items) THEN [items EXCEPT ![e.i].x = TRUE] ELSE items
+  /\ UNCHANGED <<cfg, res, nbat, log, effdone, stops, stopping, open, disp, fresh, effOpen, stopRet, bad>>
+  /\ KeepIdle
 
 DoEffStart(e) ==
   /\ effOpen' = effOpen \cup {e.mid}
@@ -208,6 +217,7 @@ Step(e) ==
     [] e.a = "AppendEnd"   -> DoAppendEnd(e)
     [] e.a = "Lookup"      -> DoLookup(e)
     [] e.a = "Result"      -> DoResult(e)
+    [] e.a = "Cancel"      -> DoCancel(e)
     [] e.a = "EffStart"    -> DoEffStart(e)
     [] e.a = "EffEnd"      -> DoEffEnd(e)
     [] e.a = "StopCall"    -> DoStopCall(e)
